@@ -198,3 +198,40 @@ def more(seq: list[int]) -> None:
     lambda *a, **k: (a, k)
     assert seq
     raise
+
+
+# blocks mypy decides statically: they are still part of the file and must be traversed
+import sys
+from typing import TYPE_CHECKING
+
+if sys.version_info >= (3, 8):
+    reach_a = int(0)
+else:
+    unreach_a = int(0)
+    print("", unreach_a)
+
+if TYPE_CHECKING:
+    from collections.abc import Iterable
+else:
+    unreach_b = [n for n in (1, 2) if n == 1 or n == 2]
+
+if sys.platform == "no-such-os":
+    unreach_c = not not sys.argv
+
+    def unreach_f(p: int) -> int:
+        return p if p else 0
+
+
+def conditional_overloads() -> None:
+    IMPL = "CPython"
+
+    @overload
+    def h(v: int) -> int: ...
+
+    if IMPL.startswith("Py"):
+
+        @overload
+        def h(v: str) -> str: ...
+
+    def h(v: Any) -> Any:
+        return v
